@@ -160,24 +160,80 @@ Qed.
 Lemma sig_bits_1 id : sig_bits id 1 = [(id, 0)].
 Proof. reflexivity. Qed.
 
+(* two lists with the same picks are the same list *)
+Lemma nth_error_ext' {A} : forall (l1 l2 : list A), (forall i, nth_error l1 i = nth_error l2 i) -> l1 = l2.
+Proof.
+  induction l1 as [|y l1 IH]; intros [|z l2] H; auto.
+  - specialize (H 0%nat). discriminate.
+  - specialize (H 0%nat). discriminate.
+  - f_equal.
+    + specialize (H 0%nat). simpl in H. congruence.
+    + apply IH. intros i. exact (H (S i)).
+Qed.
+
+Lemma pick_ext {A} (l1 l2 : list A) : zlen l1 = zlen l2 -> (forall j, 0 <= j < zlen l1 -> pick l1 j = pick l2 j) -> l1 = l2.
+Proof.
+  unfold zlen. intros Hlen H. apply nth_error_ext'. intros i.
+  destruct (lt_dec i (List.length l1)) as [Hi|Hi].
+  - specialize (H (Z.of_nat i) ltac:(lia)). unfold pick in H.
+    assert (Z.of_nat i <? 0 = false) as E by lia. rewrite E in H. rewrite Nat2Z.id in H.
+    destruct (nth_error l1 i), (nth_error l2 i); try discriminate; [|reflexivity].
+    inversion H; reflexivity.
+  - rewrite (proj2 (nth_error_None l1 i)) by lia. rewrite (proj2 (nth_error_None l2 i)) by lia. reflexivity.
+Qed.
+
+Lemma In_bits_of w j : In j (bits_of w) -> 0 <= j < w.
+Proof. unfold bits_of. intros H. apply iota_in in H. destruct H as [k [Hk ->]]. lia. Qed.
+
+Lemma zlen_map_bits_of {A} (f : Z -> A) w : 0 <= w -> zlen (map f (bits_of w)) = w.
+Proof. intros H. unfold zlen, bits_of. rewrite map_length, iota_length. lia. Qed.
+
+Lemma pick_map_bits_of {A} (f : Z -> A) w j : 0 <= j < w -> pick (map f (bits_of w)) j = Ok (f j).
+Proof.
+  intros H. rewrite pick_map. unfold pick, bits_of. destruct (j <? 0) eqn:E; [lia|].
+  rewrite iota_nth by lia. f_equal. f_equal. lia.
+Qed.
+
+Lemma traverse_map_ok {A B C} (f : B -> result C) (g : A -> B) (h : A -> C) l :
+  (forall y, In y l -> f (g y) = Ok (h y)) -> traverse f (map g l) = Ok (map h l).
+Proof.
+  induction l as [|y l IH]; intros H; [reflexivity|]. cbn [map traverse].
+  rewrite (H y (or_introl eq_refl)). cbn [bind]. rewrite IH; [reflexivity|]. intros z Hz. apply H. right. exact Hz.
+Qed.
+
+Lemma traverse_error {A B} (f : A -> result B) l y e : In y l -> f y = Error e -> exists e', traverse f l = Error e'.
+Proof.
+  induction l as [|z l IH]; [intros []|]. intros [->|Hin] Hy; cbn [traverse].
+  - rewrite Hy. cbn [bind]. eauto.
+  - destruct (f z); cbn [bind]; [|eauto]. destruct (IH Hin Hy) as [e' ->]. cbn [bind]. eauto.
+Qed.
+
+(* a bit index of a bus made of w-bit groups determines the group *)
+Lemma group_unique w k j k' j' : 0 <= j < w -> 0 <= j' < w -> k * w + j = k' * w + j' -> k = k' /\ j = j'.
+Proof.
+  intros Hj Hj' E.
+  assert (k = k') as ->.
+  { destruct (Z.lt_trichotomy k k') as [H|[H|H]]; [exfalso|exact H|exfalso].
+    - assert ((k + 1) * w <= k' * w) by (apply Z.mul_le_mono_nonneg_r; lia). lia.
+    - assert ((k' + 1) * w <= k * w) by (apply Z.mul_le_mono_nonneg_r; lia). lia. }
+  split; [reflexivity|lia].
+Qed.
+
 (* ---------------- the stack module of Series ---------------- *)
-Lemma series_conn_key iid n a b e : fst (series_conn iid n a b e) = fst (snd e).
+Lemma series_conn_key iid iw a b e : fst (series_conn iid iw a b e) = fst (snd e).
 Proof. destruct e as [id [p w]]. reflexivity. Qed.
 
-Section Series.
-  Variables (u : unit) (a b : name) (n : Z) (iname uname : name).
+(* the stack with an internal bus of ANY width iw >= 1: structure, the parallel ports, and when elaboration refuses it *)
+Section SeriesGen.
+  Variables (u : unit) (a b : name) (iw n : Z) (iname uname : name).
   Hypothesis Hwf : wf_unit u = true.
   Hypothesis Hn : 2 <= n.
-  Hypothesis Hab : a <> b.
-  Hypothesis Ha : assoc a (u_sigs u) = Some 1.
-  Hypothesis Hb : assoc b (u_sigs u) = Some 1.
-  Hypothesis Hi : mem iname (map fst (unit_io u)) = false.
 
   Let io := unit_io u.
   Let iid := N.of_nat (List.length io).
-  Let m := series_module u a b n iname uname.
+  Let m := series_module_gen u a b iw n iname uname.
   Let x := {| i_name := uname; i_n := n; i_of := TDev unit_dev io;
-              i_conns := map (series_conn iid n a b) (number io 0%N) |}.
+              i_conns := map (series_conn iid iw a b) (number io 0%N) |}.
 
   Lemma wf_parts : forallb (fun pw : name * Z => 1 <=? snd pw) io = true /\ nodup_names (map fst io) = true.
   Proof.
@@ -189,32 +245,30 @@ Section Series.
     intros H. destruct wf_parts as [Hw _]. rewrite forallb_forall in Hw. specialize (Hw _ H). simpl in Hw. lia.
   Qed.
 
-  Lemma a_in_io : In (a, 1) io.
-  Proof. unfold io, unit_io. apply in_or_app. left. apply assoc_In. exact Ha. Qed.
-  Lemma b_in_io : In (b, 1) io.
-  Proof. unfold io, unit_io. apply in_or_app. left. apply assoc_In. exact Hb. Qed.
+  Lemma sig_in_io c w : assoc c (u_sigs u) = Some w -> In (c, w) io.
+  Proof. intros H. unfold io, unit_io. apply in_or_app. left. apply assoc_In. exact H. Qed.
 
   Lemma m_insts_x : m_insts m = [x].
   Proof. reflexivity. Qed.
 
   Lemma leaf_port id p w j : In (id, (p, w)) (number io 0%N) -> leaf_name m (id, j) = Ok (p, j).
   Proof.
-    intros H. unfold leaf_name, m, series_module. cbn [m_leaves fst snd]. unfold leaves_of.
-    rewrite (assocN_number (fun pw : name * Z => LSig (fst pw)) (unit_io u ++ [(iname, n - 1)]) 0%N id (p, w)).
+    intros H. unfold leaf_name, m, series_module_gen. cbn [m_leaves fst snd]. unfold leaves_of.
+    rewrite (assocN_number (fun pw : name * Z => LSig (fst pw)) (unit_io u ++ [(iname, iw)]) 0%N id (p, w)).
     - reflexivity.
     - rewrite number_app. apply in_or_app. left. exact H.
   Qed.
 
   Lemma leaf_internal j : leaf_name m (iid, j) = Ok (iname, j).
   Proof.
-    unfold leaf_name, m, series_module. cbn [m_leaves fst snd]. unfold leaves_of.
-    rewrite (assocN_number (fun pw : name * Z => LSig (fst pw)) (unit_io u ++ [(iname, n - 1)]) 0%N iid (iname, n - 1)).
+    unfold leaf_name, m, series_module_gen. cbn [m_leaves fst snd]. unfold leaves_of.
+    rewrite (assocN_number (fun pw : name * Z => LSig (fst pw)) (unit_io u ++ [(iname, iw)]) 0%N iid (iname, iw)).
     - reflexivity.
     - rewrite number_app. apply in_or_app. right. simpl. left. reflexivity.
   Qed.
 
   Lemma conn_of id p w : In (id, (p, w)) (number io 0%N) ->
-    assoc p (i_conns x) = Some (snd (series_conn iid n a b (id, (p, w)))) /\ assoc p (inst_ports x) = Some w.
+    assoc p (i_conns x) = Some (snd (series_conn iid iw a b (id, (p, w)))) /\ assoc p (inst_ports x) = Some w.
   Proof.
     intros H. destruct wf_parts as [_ Hnd]. split.
     - cbn [i_conns x]. apply assoc_number; [apply series_conn_key|exact Hnd|exact H].
@@ -236,103 +290,221 @@ Section Series.
     cbn [map traverse]. rewrite (leaf_port id p w j Hid). cbn [bind]. rewrite IH. reflexivity.
   Qed.
 
-  (* the bits of the two offset concatenations *)
-  Lemma first_concat_pick id k : 0 <= k < n ->
-    pick (sig_bits id 1 ++ sig_bits iid (n - 1) ++ []) (k * 1 + 0) = Ok (if k =? 0 then (id, 0) else (iid, k - 1)).
+  (* ArrayFlattener refuses a connection whose width is neither that of the port nor n times it *)
+  Lemma unit_bits_first_refused wa k : 1 <= iw -> a <> b -> assoc a (u_sigs u) = Some wa -> wa + iw <> n * wa ->
+    unit_bits m x k a = Error EWidth.
   Proof.
-    intros Hk. rewrite pick_app by lia. rewrite sig_bits_1. change (zlen [(id, 0)]) with 1.
-    destruct (k =? 0) eqn:E.
-    - assert (k = 0) as -> by lia. reflexivity.
-    - assert (k * 1 + 0 <? 1 = false) as -> by lia. rewrite app_nil_r.
-      replace (k * 1 + 0 - 1) with (k - 1) by lia. apply pick_sig_bits. lia.
-  Qed.
-
-  Lemma second_concat_pick id k : 0 <= k < n ->
-    pick (sig_bits iid (n - 1) ++ sig_bits id 1 ++ []) (k * 1 + 0) = Ok (if k =? n - 1 then (id, 0) else (iid, k)).
-  Proof.
-    intros Hk. rewrite pick_app by lia. rewrite (sig_bits_len iid (n - 1)) by lia.
-    destruct (k =? n - 1) eqn:E.
-    - assert (k * 1 + 0 <? n - 1 = false) as -> by lia. rewrite sig_bits_1.
-      replace (k * 1 + 0 - (n - 1)) with 0 by lia. reflexivity.
-    - assert (k * 1 + 0 <? n - 1 = true) as -> by lia. replace (k * 1 + 0) with k by lia. apply pick_sig_bits. lia.
-  Qed.
-
-  (* an offset concatenation of width n fed to the array: element k receives exactly bit k (array element theorem) *)
-  Lemma elem_of_concat c bits k y : 0 <= k < n -> xbits c = Ok bits -> zlen bits = n -> pick bits (k * 1 + 0) = Ok y ->
-    exists c', array_elem_conn n 1 c k = Ok c' /\ xbits c' = Ok [y].
-  Proof.
-    intros Hk Hbits Hlen Hpick.
-    pose proof (array_element_bits n 1 c k bits ltac:(lia) Hk Hbits) as T.
-    destruct (array_elem_conn n 1 c k) as [c'|e].
-    - destruct T as [l' [Hl' [Hlen' Hp]]]. exists c'. split; [reflexivity|]. rewrite Hl'. f_equal.
-      apply single_pick; [exact Hlen'|]. rewrite (Hp 0 ltac:(lia)).
-      assert (zlen bits =? 1 = false) as -> by lia. exact Hpick.
-    - exfalso. destruct T as [_ T]. apply T. lia.
-  Qed.
-
-  Lemma unit_bits_first k : 0 <= k < n ->
-    unit_bits m x k a = Ok [if k =? 0 then (a, 0) else (iname, k - 1)].
-  Proof.
-    intros Hk. destruct (In_number io (a, 1) a_in_io 0%N) as [id Hid].
-    destruct (conn_of id a 1 Hid) as [Hc Hp].
+    intros Hiw Hab Ha Hne. pose proof (sig_in_io a wa Ha) as Hin. destruct (In_number io (a, wa) Hin 0%N) as [id Hid].
+    destruct (conn_of id a wa Hid) as [Hc Hp]. pose proof (io_width a wa Hin) as Hw.
     unfold unit_bits, elem_conn. rewrite Hc, Hp. cbn [ofopt bind series_conn snd].
     assert (String.eqb a b = false) as -> by (apply String.eqb_neq; exact Hab). rewrite String.eqb_refl.
     assert (i_n x =? 0 = false) as -> by (cbn [i_n x]; lia). cbn [i_n x].
-    destruct (elem_of_concat (XConcat [XSig id 1; XSig iid (n - 1)]) (sig_bits id 1 ++ sig_bits iid (n - 1) ++ []) k
-                (if k =? 0 then (id, 0) else (iid, k - 1)) Hk) as [c' [Hc' Hb']].
-    - cbn [xbits map cat_results]. assert (n - 1 <? 1 = false) as -> by lia. reflexivity.
-    - unfold zlen. rewrite !app_length. simpl. pose proof (sig_bits_len iid (n - 1) ltac:(lia)) as L. unfold zlen in L. lia.
-    - apply first_concat_pick. exact Hk.
-    - rewrite Hc'. cbn [bind]. rewrite Hb'. cbn [bind traverse].
-      destruct (k =? 0).
-      + rewrite (leaf_port id a 1 0 Hid). reflexivity.
-      + rewrite leaf_internal. reflexivity.
+    unfold array_elem_conn. cbn [xwidth map sum_results].
+    assert (wa <? 1 = false) as -> by lia. assert (iw <? 1 = false) as -> by lia. cbn [bind].
+    assert (wa + (iw + 0) =? wa = false) as -> by lia. assert (wa + (iw + 0) =? n * wa = false) as -> by lia. reflexivity.
   Qed.
 
-  Lemma unit_bits_second k : 0 <= k < n ->
-    unit_bits m x k b = Ok [if k =? n - 1 then (b, 0) else (iname, k)].
+  Lemma unit_bits_second_refused wb k : 1 <= iw -> assoc b (u_sigs u) = Some wb -> iw + wb <> n * wb ->
+    unit_bits m x k b = Error EWidth.
   Proof.
-    intros Hk. destruct (In_number io (b, 1) b_in_io 0%N) as [id Hid].
-    destruct (conn_of id b 1 Hid) as [Hc Hp].
+    intros Hiw Hb Hne. pose proof (sig_in_io b wb Hb) as Hin. destruct (In_number io (b, wb) Hin 0%N) as [id Hid].
+    destruct (conn_of id b wb Hid) as [Hc Hp]. pose proof (io_width b wb Hin) as Hw.
     unfold unit_bits, elem_conn. rewrite Hc, Hp. cbn [ofopt bind series_conn snd].
     rewrite String.eqb_refl.
     assert (i_n x =? 0 = false) as -> by (cbn [i_n x]; lia). cbn [i_n x].
-    destruct (elem_of_concat (XConcat [XSig iid (n - 1); XSig id 1]) (sig_bits iid (n - 1) ++ sig_bits id 1 ++ []) k
-                (if k =? n - 1 then (id, 0) else (iid, k)) Hk) as [c' [Hc' Hb']].
-    - cbn [xbits map cat_results]. assert (n - 1 <? 1 = false) as -> by lia. reflexivity.
-    - unfold zlen. rewrite !app_length. simpl. pose proof (sig_bits_len iid (n - 1) ltac:(lia)) as L. unfold zlen in L. lia.
-    - apply second_concat_pick. exact Hk.
-    - rewrite Hc'. cbn [bind]. rewrite Hb'. cbn [bind traverse].
-      destruct (k =? n - 1).
-      + rewrite (leaf_port id b 1 0 Hid). reflexivity.
-      + rewrite leaf_internal. reflexivity.
+    unfold array_elem_conn. cbn [xwidth map sum_results].
+    assert (wb <? 1 = false) as -> by lia. assert (iw <? 1 = false) as -> by lia. cbn [bind].
+    assert (iw + (wb + 0) =? wb = false) as -> by lia. assert (iw + (wb + 0) =? n * wb = false) as -> by lia. reflexivity.
   Qed.
 
-  Lemma iname_not_port p w : In (p, w) io -> p <> iname.
+  (* one refused port of unit 0 and elaboration as a whole fails *)
+  Lemma all_unit_bits_refused p w e : In (p, w) io -> unit_bits m x 0 p = Error e -> exists e', all_unit_bits m = Error e'.
+  Proof.
+    intros Hin He. unfold all_unit_bits. rewrite m_insts_x.
+    destruct (traverse_error (fun pw : name * Z => unit_bits m x 0 (fst pw)) (inst_ports x) (p, w) e Hin He) as [e' He'].
+    apply (traverse_error (fun k => traverse (fun pw : name * Z => unit_bits m x k (fst pw)) (inst_ports x)) (elems_of x) 0 e'); [|exact He'].
+    unfold elems_of. assert (i_n x =? 0 = false) as -> by (cbn [i_n x]; lia). cbn [i_n x].
+    destruct (Z.to_nat n) eqn:E; [lia|]. left. reflexivity.
+  Qed.
+End SeriesGen.
+
+(* the stack generators.py builds (fixes/C19W-1): internal bus of width (n-1)*w, w = the width of both series ports *)
+Section Series.
+  Variables (u : unit) (a b : name) (w n : Z) (iname uname : name).
+  Hypothesis Hwf : wf_unit u = true.
+  Hypothesis Hn : 2 <= n.
+  Hypothesis Hab : a <> b.
+  Hypothesis Ha : assoc a (u_sigs u) = Some w.
+  Hypothesis Hb : assoc b (u_sigs u) = Some w.
+  Hypothesis Hi : mem iname (map fst (unit_io u)) = false.
+
+  Let io := unit_io u.
+  Let iid := N.of_nat (List.length io).
+  Let m := series_module_gen u a b ((n - 1) * w) n iname uname.
+  Let x := {| i_name := uname; i_n := n; i_of := TDev unit_dev io;
+              i_conns := map (series_conn iid ((n - 1) * w) a b) (number io 0%N) |}.
+
+  Lemma a_in_io : In (a, w) io.
+  Proof. exact (sig_in_io u a w Ha). Qed.
+  Lemma b_in_io : In (b, w) io.
+  Proof. exact (sig_in_io u b w Hb). Qed.
+
+  Lemma w_pos : 1 <= w.
+  Proof. exact (io_width u Hwf a w a_in_io). Qed.
+
+  Lemma iw_pos : 1 <= (n - 1) * w.
+  Proof. pose proof w_pos. nia. Qed.
+
+  (* the bits of the two offset concatenations: bit k*w + j *)
+  Lemma first_concat_pick id k j : 0 <= k < n -> 0 <= j < w ->
+    pick (sig_bits id w ++ sig_bits iid ((n - 1) * w) ++ []) (k * w + j) = Ok (if k =? 0 then (id, j) else (iid, (k - 1) * w + j)).
+  Proof.
+    intros Hk Hj. pose proof w_pos as Hw. pose proof iw_pos as Hiw.
+    rewrite pick_app by nia. rewrite (sig_bits_len id w Hw).
+    destruct (k =? 0) eqn:E.
+    - assert (k = 0) as -> by lia. assert (0 * w + j <? w = true) as -> by lia.
+      replace (0 * w + j) with j by lia. apply pick_sig_bits. exact Hj.
+    - assert (w <= k * w) by nia. assert (k * w + j <? w = false) as -> by lia. rewrite app_nil_r.
+      replace (k * w + j - w) with ((k - 1) * w + j) by lia. apply pick_sig_bits.
+      assert (k * w <= (n - 1) * w) by (apply Z.mul_le_mono_nonneg_r; lia). lia.
+  Qed.
+
+  Lemma second_concat_pick id k j : 0 <= k < n -> 0 <= j < w ->
+    pick (sig_bits iid ((n - 1) * w) ++ sig_bits id w ++ []) (k * w + j) = Ok (if k =? n - 1 then (id, j) else (iid, k * w + j)).
+  Proof.
+    intros Hk Hj. pose proof w_pos as Hw. pose proof iw_pos as Hiw.
+    rewrite pick_app by nia. rewrite (sig_bits_len iid ((n - 1) * w) Hiw).
+    destruct (k =? n - 1) eqn:E.
+    - assert (k = n - 1) as -> by lia. assert ((n - 1) * w + j <? (n - 1) * w = false) as -> by lia.
+      replace ((n - 1) * w + j - (n - 1) * w) with j by lia. rewrite app_nil_r. apply pick_sig_bits. exact Hj.
+    - assert ((k + 1) * w <= (n - 1) * w) by (apply Z.mul_le_mono_nonneg_r; lia).
+      assert (k * w + j <? (n - 1) * w = true) as -> by lia. apply pick_sig_bits. nia.
+  Qed.
+
+  (* an offset concatenation of width n*w fed to the array: element k receives exactly bits k*w .. k*w + w - 1 (array element theorem) *)
+  Lemma elem_of_concat c bits k (f : Z -> bit) : 0 <= k < n -> xbits c = Ok bits -> zlen bits = n * w ->
+    (forall j, 0 <= j < w -> pick bits (k * w + j) = Ok (f j)) ->
+    exists c', array_elem_conn n w c k = Ok c' /\ xbits c' = Ok (map f (bits_of w)).
+  Proof.
+    intros Hk Hbits Hlen Hpick. pose proof w_pos as Hw.
+    pose proof (array_element_bits n w c k bits Hw Hk Hbits) as T.
+    destruct (array_elem_conn n w c k) as [c'|e].
+    - destruct T as [l' [Hl' [Hlen' Hp]]]. exists c'. split; [reflexivity|]. rewrite Hl'. f_equal.
+      apply pick_ext.
+      + rewrite zlen_map_bits_of by lia. exact Hlen'.
+      + intros j Hj. rewrite Hlen' in Hj. rewrite (Hp j Hj).
+        assert (zlen bits =? w = false) as -> by nia. rewrite (Hpick j Hj). symmetry. apply pick_map_bits_of. exact Hj.
+    - exfalso. destruct T as [_ T]. apply T. exact Hlen.
+  Qed.
+
+  Lemma concat_len id1 w1 id2 w2 : 1 <= w1 -> 1 <= w2 -> zlen (sig_bits id1 w1 ++ sig_bits id2 w2 ++ []) = w1 + w2.
+  Proof.
+    intros H1 H2. pose proof (sig_bits_len id1 w1 H1) as L1. pose proof (sig_bits_len id2 w2 H2) as L2.
+    unfold zlen in *. rewrite !app_length. simpl. lia.
+  Qed.
+
+  Lemma unit_bits_first k : 0 <= k < n ->
+    unit_bits m x k a = Ok (map (fun j => if k =? 0 then (a, j) else (iname, (k - 1) * w + j)) (bits_of w)).
+  Proof.
+    intros Hk. pose proof w_pos as Hw. pose proof iw_pos as Hiw.
+    destruct (In_number io (a, w) a_in_io 0%N) as [id Hid].
+    destruct (conn_of u a b ((n - 1) * w) n uname Hwf id a w Hid) as [Hc Hp].
+    unfold unit_bits, elem_conn. fold io iid x in Hc, Hp. rewrite Hc, Hp. cbn [ofopt bind series_conn snd].
+    assert (String.eqb a b = false) as -> by (apply String.eqb_neq; exact Hab). rewrite String.eqb_refl.
+    assert (i_n x =? 0 = false) as -> by (cbn [i_n x]; lia). cbn [i_n x].
+    destruct (elem_of_concat (XConcat [XSig id w; XSig iid ((n - 1) * w)]) (sig_bits id w ++ sig_bits iid ((n - 1) * w) ++ []) k
+                (fun j => if k =? 0 then (id, j) else (iid, (k - 1) * w + j)) Hk) as [c' [Hc' Hb']].
+    - cbn [xbits map cat_results]. assert (w <? 1 = false) as -> by lia. assert ((n - 1) * w <? 1 = false) as -> by lia. reflexivity.
+    - rewrite concat_len by lia. lia.
+    - intros j Hj. apply first_concat_pick; assumption.
+    - rewrite Hc'. cbn [bind]. rewrite Hb'. cbn [bind].
+      apply traverse_map_ok. intros j _. destruct (k =? 0).
+      + exact (leaf_port u a b ((n - 1) * w) n iname uname id a w j Hid).
+      + exact (leaf_internal u a b ((n - 1) * w) n iname uname _).
+  Qed.
+
+  Lemma unit_bits_second k : 0 <= k < n ->
+    unit_bits m x k b = Ok (map (fun j => if k =? n - 1 then (b, j) else (iname, k * w + j)) (bits_of w)).
+  Proof.
+    intros Hk. pose proof w_pos as Hw. pose proof iw_pos as Hiw.
+    destruct (In_number io (b, w) b_in_io 0%N) as [id Hid].
+    destruct (conn_of u a b ((n - 1) * w) n uname Hwf id b w Hid) as [Hc Hp].
+    unfold unit_bits, elem_conn. fold io iid x in Hc, Hp. rewrite Hc, Hp. cbn [ofopt bind series_conn snd].
+    rewrite String.eqb_refl.
+    assert (i_n x =? 0 = false) as -> by (cbn [i_n x]; lia). cbn [i_n x].
+    destruct (elem_of_concat (XConcat [XSig iid ((n - 1) * w); XSig id w]) (sig_bits iid ((n - 1) * w) ++ sig_bits id w ++ []) k
+                (fun j => if k =? n - 1 then (id, j) else (iid, k * w + j)) Hk) as [c' [Hc' Hb']].
+    - cbn [xbits map cat_results]. assert (w <? 1 = false) as -> by lia. assert ((n - 1) * w <? 1 = false) as -> by lia. reflexivity.
+    - rewrite concat_len by lia. lia.
+    - intros j Hj. apply second_concat_pick; assumption.
+    - rewrite Hc'. cbn [bind]. rewrite Hb'. cbn [bind].
+      apply traverse_map_ok. intros j _. destruct (k =? n - 1).
+      + exact (leaf_port u a b ((n - 1) * w) n iname uname id b w j Hid).
+      + exact (leaf_internal u a b ((n - 1) * w) n iname uname _).
+  Qed.
+
+  Lemma unit_bits_par k p wp : In (p, wp) io -> p <> a -> p <> b -> unit_bits m x k p = Ok (map (pair p) (bits_of wp)).
+  Proof. exact (unit_bits_parallel u a b ((n - 1) * w) n iname uname Hwf Hn k p wp). Qed.
+
+  Lemma iname_not_port p wp : In (p, wp) io -> p <> iname.
   Proof.
     intros H E. subst p. apply mem_false_iff in Hi. apply Hi. apply (in_map fst) in H. exact H.
   Qed.
 
-  (* nothing else is on bit k of the internal bus *)
-  Lemma internal_bit_private k k' p w l : 0 <= k' < n -> In (p, w) io ->
-    unit_bits m x k' p = Ok l -> In (iname, k) l ->
+  (* nothing else is on bit k*w + j of the internal bus *)
+  Lemma internal_bit_private k j k' p wp l : 0 <= k' < n -> 0 <= j < w -> In (p, wp) io ->
+    unit_bits m x k' p = Ok l -> In (iname, k * w + j) l ->
     (p = b /\ k' = k /\ k < n - 1) \/ (p = a /\ k' = k + 1).
   Proof.
-    intros Hk' Hin Hl Hk.
+    intros Hk' Hj Hin Hl Hk.
     destruct (String.eqb p b) eqn:Eb.
     - apply String.eqb_eq in Eb. subst p. rewrite (unit_bits_second k' Hk') in Hl. inversion Hl; subst l; clear Hl.
-      destruct (k' =? n - 1) eqn:E; simpl in Hk; destruct Hk as [Hk|[]]; inversion Hk.
-      + exfalso. exact (iname_not_port b 1 b_in_io H0).
-      + left. repeat split; lia.
+      apply in_map_iff in Hk. destruct Hk as [j' [Hk Hj']]. apply In_bits_of in Hj'.
+      destruct (k' =? n - 1) eqn:E; inversion Hk.
+      + exfalso. exact (iname_not_port b w b_in_io H0).
+      + left. destruct (group_unique w k' j' k j Hj' Hj H0) as [-> _]. repeat split; lia.
     - apply String.eqb_neq in Eb. destruct (String.eqb p a) eqn:Ea.
       + apply String.eqb_eq in Ea. subst p. rewrite (unit_bits_first k' Hk') in Hl. inversion Hl; subst l; clear Hl.
-        destruct (k' =? 0) eqn:E; simpl in Hk; destruct Hk as [Hk|[]]; inversion Hk.
-        * exfalso. exact (iname_not_port a 1 a_in_io H0).
-        * right. split; [reflexivity|lia].
-      + apply String.eqb_neq in Ea. rewrite (unit_bits_parallel k' p w Hin Ea Eb) in Hl. inversion Hl; subst l; clear Hl.
-        apply in_map_iff in Hk. destruct Hk as [j [Hj _]]. inversion Hj. exfalso. exact (iname_not_port p w Hin H0).
+        apply in_map_iff in Hk. destruct Hk as [j' [Hk Hj']]. apply In_bits_of in Hj'.
+        destruct (k' =? 0) eqn:E; inversion Hk.
+        * exfalso. exact (iname_not_port a w a_in_io H0).
+        * right. destruct (group_unique w (k' - 1) j' k j Hj' Hj H0) as [E' _]. split; [reflexivity|lia].
+      + apply String.eqb_neq in Ea. rewrite (unit_bits_par k' p wp Hin Ea Eb) in Hl. inversion Hl; subst l; clear Hl.
+        apply in_map_iff in Hk. destruct Hk as [j' [Hj' _]]. inversion Hj'. exfalso. exact (iname_not_port p wp Hin H0).
   Qed.
 End Series.
+
+(* ---------------- when elaboration refuses the stack ---------------- *)
+(* series ports of different widths: the generator returns the module sized by the first, ArrayFlattener refuses it *)
+Lemma series_unequal_refused u a b wa wb n iname uname : wf_unit u = true -> 2 <= n -> a <> b ->
+  assoc a (u_sigs u) = Some wa -> assoc b (u_sigs u) = Some wb -> wa <> wb ->
+  (forall k, unit_bits (series_module u a b wa n iname uname)
+      {| i_name := uname; i_n := n; i_of := TDev unit_dev (unit_io u);
+         i_conns := map (series_conn (N.of_nat (List.length (unit_io u))) ((n - 1) * wa) a b) (number (unit_io u) 0%N) |} k b = Error EWidth) /\
+  exists e, all_unit_bits (series_module u a b wa n iname uname) = Error e.
+Proof.
+  intros Hwf Hn Hab Ha Hb Hne.
+  pose proof (io_width u Hwf a wa (sig_in_io u a wa Ha)) as Hwa. pose proof (io_width u Hwf b wb (sig_in_io u b wb Hb)) as Hwb.
+  assert (1 <= (n - 1) * wa) as Hiw by nia.
+  assert ((n - 1) * wa + wb <> n * wb) as Hw by nia.
+  assert (forall k, unit_bits (series_module u a b wa n iname uname)
+      {| i_name := uname; i_n := n; i_of := TDev unit_dev (unit_io u);
+         i_conns := map (series_conn (N.of_nat (List.length (unit_io u))) ((n - 1) * wa) a b) (number (unit_io u) 0%N) |} k b = Error EWidth) as H.
+  { intros k. exact (unit_bits_second_refused u a b ((n - 1) * wa) n iname uname Hwf Hn wb k Hiw Hb Hw). }
+  split; [exact H|].
+  exact (all_unit_bits_refused u a b ((n - 1) * wa) n iname uname Hn b wb EWidth (sig_in_io u b wb Hb) (H 0)).
+Qed.
+
+(* the PINNED generators.py (bus of width n-1) on series ports wider than one bit: ArrayFlattener refuses Concat(a, i) *)
+Lemma series_pinned_wide_refused u a b w n iname uname : wf_unit u = true -> 2 <= n -> a <> b ->
+  assoc a (u_sigs u) = Some w -> 2 <= w ->
+  exists e, all_unit_bits (series_module_pinned u a b n iname uname) = Error e.
+Proof.
+  intros Hwf Hn Hab Ha Hw.
+  assert (w + (n - 1) <> n * w) as Hne by nia.
+  exact (all_unit_bits_refused u a b (n - 1) n iname uname Hn a w EWidth (sig_in_io u a w Ha)
+           (unit_bits_first_refused u a b (n - 1) n iname uname Hwf Hn w 0 ltac:(lia) Hab Ha Hne)).
+Qed.
 
 (* ---------------- the generator functions ---------------- *)
 Lemma wf_internal_fresh u r : wf_unit u = true ->
@@ -345,7 +517,7 @@ Qed.
 
 Lemma series_gen_valid u a b n wa wb : wf_unit u = true -> 2 <= n ->
   assoc a (u_sigs u) = Some wa -> assoc b (u_sigs u) = Some wb ->
-  exists iname uname, series_gen u a b n = Ok (series_module u a b n iname uname) /\
+  exists iname uname, series_gen u a b n = Ok (series_module u a b wa n iname uname) /\
      mem iname (map fst (unit_io u)) = false /\ mem iname (unit_names u) = false /\
      mem uname (iname :: unit_names u) = false.
 Proof.
@@ -358,7 +530,7 @@ Qed.
 
 Lemma series_gen_inv u a b n m : 2 <= n -> series_gen u a b n = Ok m ->
   exists wa wb iname uname, assoc a (u_sigs u) = Some wa /\ assoc b (u_sigs u) = Some wb /\
-     unused_name (name_fuel (unit_names u)) (unit_names u) "i" = Ok iname /\ m = series_module u a b n iname uname.
+     unused_name (name_fuel (unit_names u)) (unit_names u) "i" = Ok iname /\ m = series_module u a b wa n iname uname.
 Proof.
   intros Hn. unfold series_gen, series_port.
   assert (n <? 1 = false) as -> by lia. assert (n =? 1 = false) as -> by lia.
@@ -368,6 +540,22 @@ Proof.
   destruct (unused_name _ (iname :: unit_names u) "units") as [uname|]; cbn [bind]; [|discriminate].
   intros H; inversion H. exists wa, wb, iname, uname. repeat split; reflexivity.
 Qed.
+
+(* the pinned generator differs from the repaired one in the width of the bus only; for one-bit series ports not at all *)
+Lemma series_gen_pinned_valid u a b n wa wb : 2 <= n ->
+  assoc a (u_sigs u) = Some wa -> assoc b (u_sigs u) = Some wb ->
+  exists iname uname, series_gen_pinned u a b n = Ok (series_module_pinned u a b n iname uname) /\
+                      series_gen u a b n = Ok (series_module u a b wa n iname uname).
+Proof.
+  intros Hn Ha Hb. unfold series_gen_pinned, series_gen, series_port.
+  assert (n <? 1 = false) as -> by lia. assert (n =? 1 = false) as -> by lia. rewrite Ha, Hb. cbn [bind].
+  destruct (unused_name_ok (unit_names u) "i") as [iname [Hi Hif]]. rewrite Hi. cbn [bind].
+  destruct (unused_name_ok (iname :: unit_names u) "units") as [uname [Hu Huf]]. rewrite Hu. cbn [bind].
+  exists iname, uname. split; reflexivity.
+Qed.
+
+Lemma series_module_pinned_w1 u a b n iname uname : series_module_pinned u a b n iname uname = series_module u a b 1 n iname uname.
+Proof. unfold series_module_pinned, series_module. rewrite Z.mul_1_r. reflexivity. Qed.
 
 (* a series port that is not a signal-valued port of the unit (absent, or bundle valued): rejected *)
 Lemma series_gen_rejects u a b n : 2 <= n -> assoc a (u_sigs u) = None \/ assoc b (u_sigs u) = None ->
@@ -410,54 +598,55 @@ End Wrapper.
 
 (* ---------------- model nets = specification keys ---------------- *)
 (* the net (signal bit of the generated module) that realises a key of Spec/C19Topology.v: module port bits are
-   themselves; chain k is bit k of the internal bus.  Injective as soon as the internal name is no port name. *)
-Definition net_of (iname : name) (key : netkey) : name * Z :=
-  match key with KPort p j => (p, j) | KChain k j => (iname, k + j) end.
+   themselves; bit j of chain k is bit k*w + j of the internal bus (w = the width of the series ports).
+   Injective as soon as the internal name is no port name and the bit indices of chain keys are below w. *)
+Definition net_of (iname : name) (w : Z) (key : netkey) : name * Z :=
+  match key with KPort p j => (p, j) | KChain k j => (iname, k * w + j) end.
 
-Lemma net_of_injective iname (io : list (name * Z)) k1 k2 :
+Lemma net_of_injective iname w (io : list (name * Z)) k1 k2 :
   mem iname (map fst io) = false ->
   (forall p j, k1 = KPort p j -> In p (map fst io)) -> (forall p j, k2 = KPort p j -> In p (map fst io)) ->
-  (forall k j, k1 = KChain k j -> j = 0) -> (forall k j, k2 = KChain k j -> j = 0) ->
-  net_of iname k1 = net_of iname k2 -> k1 = k2.
+  (forall k j, k1 = KChain k j -> 0 <= j < w) -> (forall k j, k2 = KChain k j -> 0 <= j < w) ->
+  net_of iname w k1 = net_of iname w k2 -> k1 = k2.
 Proof.
   intros Hi P1 P2 C1 C2. apply mem_false_iff in Hi.
   destruct k1 as [p j|k j], k2 as [q l|k' l]; simpl; intros H; inversion H; subst.
   - reflexivity.
   - exfalso. apply Hi. eapply P1. reflexivity.
   - exfalso. apply Hi. eapply P2. reflexivity.
-  - rewrite (C1 _ _ eq_refl) in *. rewrite (C2 _ _ eq_refl) in *. f_equal. lia.
+  - destruct (group_unique w k j k' l (C1 _ _ eq_refl) (C2 _ _ eq_refl) H1) as [-> ->]. reflexivity.
 Qed.
 
-Lemma series_model_meets_spec u a b n iname uname k p w :
-  wf_unit u = true -> 2 <= n -> a <> b -> assoc a (u_sigs u) = Some 1 -> assoc b (u_sigs u) = Some 1 ->
-  mem iname (map fst (unit_io u)) = false -> 0 <= k < n -> In (p, w) (unit_io u) ->
+Lemma series_model_meets_spec u a b w n iname uname k p wp :
+  wf_unit u = true -> 2 <= n -> a <> b -> assoc a (u_sigs u) = Some w -> assoc b (u_sigs u) = Some w ->
+  mem iname (map fst (unit_io u)) = false -> 0 <= k < n -> In (p, wp) (unit_io u) ->
   let io := unit_io u in
   let x := {| i_name := uname; i_n := n; i_of := TDev unit_dev io;
-              i_conns := map (series_conn (N.of_nat (List.length io)) n a b) (number io 0%N) |} in
-  unit_bits (series_module u a b n iname uname) x k p
-  = Ok (map (fun j => net_of iname (series_key n a b k p j)) (bits_of w)).
+              i_conns := map (series_conn (N.of_nat (List.length io)) ((n - 1) * w) a b) (number io 0%N) |} in
+  unit_bits (series_module u a b w n iname uname) x k p
+  = Ok (map (fun j => net_of iname w (series_key n a b k p j)) (bits_of wp)).
 Proof.
   intros Hwf Hn Hab Ha Hb Hi Hk Hin io x.
   pose proof (wf_parts u Hwf) as [_ Hnd].
   destruct (String.eqb p a) eqn:Ea.
   - apply String.eqb_eq in Ea. subst p.
-    assert (w = 1) as ->.
-    { pose proof (assoc_In_nodup (unit_io u) a w Hnd Hin) as E1.
-      pose proof (assoc_In_nodup (unit_io u) a 1 Hnd (a_in_io u a Ha)) as E2. congruence. }
-    unfold x, io. rewrite (unit_bits_first u a b n iname uname Hwf Hn Hab Ha k Hk).
-    unfold series_key. rewrite String.eqb_refl. change (bits_of 1) with [0]. cbn [map].
-    destruct (k =? 0); cbn [net_of]; rewrite ?Z.add_0_r; reflexivity.
+    assert (wp = w) as ->.
+    { pose proof (assoc_In_nodup (unit_io u) a wp Hnd Hin) as E1.
+      pose proof (assoc_In_nodup (unit_io u) a w Hnd (a_in_io u a w Ha)) as E2. congruence. }
+    unfold x, io, series_module. rewrite (unit_bits_first u a b w n iname uname Hwf Hn Hab Ha k Hk).
+    f_equal. apply map_ext. intros j. unfold series_key. rewrite String.eqb_refl.
+    destruct (k =? 0); reflexivity.
   - apply String.eqb_neq in Ea. destruct (String.eqb p b) eqn:Eb.
     + apply String.eqb_eq in Eb. subst p.
-      assert (w = 1) as ->.
-      { pose proof (assoc_In_nodup (unit_io u) b w Hnd Hin) as E1.
-        pose proof (assoc_In_nodup (unit_io u) b 1 Hnd (b_in_io u b Hb)) as E2. congruence. }
-      unfold x, io. rewrite (unit_bits_second u a b n iname uname Hwf Hn Hb k Hk).
-      unfold series_key. assert (String.eqb b a = false) as -> by (apply String.eqb_neq; congruence).
-      rewrite String.eqb_refl. change (bits_of 1) with [0]. cbn [map].
-      destruct (k =? n - 1); cbn [net_of]; rewrite ?Z.add_0_r; reflexivity.
+      assert (wp = w) as ->.
+      { pose proof (assoc_In_nodup (unit_io u) b wp Hnd Hin) as E1.
+        pose proof (assoc_In_nodup (unit_io u) b w Hnd (b_in_io u b w Hb)) as E2. congruence. }
+      unfold x, io, series_module. rewrite (unit_bits_second u a b w n iname uname Hwf Hn Ha Hb k Hk).
+      f_equal. apply map_ext. intros j. unfold series_key.
+      assert (String.eqb b a = false) as -> by (apply String.eqb_neq; congruence).
+      rewrite String.eqb_refl. destruct (k =? n - 1); reflexivity.
     + apply String.eqb_neq in Eb.
-      unfold x, io. rewrite (unit_bits_parallel u a b n iname uname Hwf Hn k p w Hin Ea Eb).
+      unfold x, io, series_module. rewrite (unit_bits_parallel u a b ((n - 1) * w) n iname uname Hwf Hn k p wp Hin Ea Eb).
       f_equal. apply map_ext. intros j. unfold series_key.
       apply String.eqb_neq in Ea. apply String.eqb_neq in Eb. rewrite Ea, Eb. reflexivity.
 Qed.
